@@ -277,6 +277,55 @@ def check_field_ranks(run, A):
 EXTENT_CHANGERS = ('numpy.resize', 'method:resize', 'numpy.tile', 'numpy.repeat', 'numpy.reshape', 'numpy.concatenate', 'numpy.pad', 'numpy.stack')
 
 
+def check_rank_dispatch(run, A):
+    """a function documented for any number of leading axes computes the same thing for every rank: no branch that computes values is
+    selected by `x.ndim == k` / `len(x.shape) > k` (a fast path for the un-stacked case is a second implementation that has to agree with the
+    stacked one in every detail, e.g. np.cov divides by N - 1)"""
+    from ..walk import cond_polarity
+    n = 0
+    for fn in scope(A):
+        g = A.graphs.get(fn)
+        seen = {}
+        for e in g.events:
+            if e.kind in ('assert', 'raise'):
+                continue
+            atoms = []
+            for c, _ in e.guards:
+                stack = [c]
+                while stack:
+                    z = stack.pop()
+                    z, _p = cond_polarity(z)
+                    if z.op == 'bool':
+                        stack.extend(z.args[1])
+                    elif z.op == 'cmp':
+                        atoms.append((z, c))
+            for c0, c in atoms:
+                if id(c0) in seen:
+                    continue
+                seen[id(c0)] = True
+
+                def is_rank(x):
+                    x = strip_views(x)
+                    return (x.op == 'attr' and x.args[1] == 'ndim') or (is_call_to(x, 'builtin.len') and strip_views(call_arg(x, 0)).op == 'attr' and strip_views(call_arg(x, 0)).args[1] == 'shape')
+                a, b = c0.args[1], c0.args[2]
+                n += 1
+                if (is_rank(a) and isinstance(const_val(strip_views(b)), int)) or (is_rank(b) and isinstance(const_val(strip_views(a)), int)):
+                    # a validation (`if x.ndim != 3: raise`) has a branch that only raises; a dispatch computes on both sides
+                    sides = {True: [], False: []}
+                    for e2 in g.events:
+                        for c2, p2 in e2.guards:
+                            if c2 is c:
+                                sides[p2].append(e2)
+                    def only_raises(evs):
+                        return bool(evs) and any(x.kind == 'raise' for x in evs) and not any(x.kind in ('return', 'store', 'inplace', 'setattr') for x in evs)
+                    if only_raises(sides[True]) or only_raises(sides[False]):
+                        continue
+                    run.violation('R-ELL', f'{fn.qual.split("::")[1]}: the computation is selected by the rank of the input', fn.loc(c0.node),
+                                  f'`{norm_stmt(c0.node)}` chooses a different code path for un-stacked input: a slice processed alone and the same slice inside a stack go through '
+                                  f'different implementations', construct=f'R-ELL::{fn.qual}::rank-dispatch')
+    run.count('branch conditions examined for rank dispatch', n)
+
+
 def check_initial_expansion(run, A):
     """an initial affiliation with singleton leading axes behaves as if repeated: on its way into the first M-step the given
     initialisation is used as it is or expanded with np.broadcast_to - nothing else changes its extent (np.resize / np.tile /
@@ -307,6 +356,7 @@ def check(run):
     from ..opt import check_axisless_squeeze
     check_axisless_squeeze(run, A, ('pb_bss.distribution.',))
     check_initial_expansion(run, A)
+    check_rank_dispatch(run, A)
     run.explanation = (
         'Leading-axes polymorphism decided structurally for every distribution model / trainer and mixture trainer documented with `...`: literal axes count from the right and '
         'axis-less reductions occur only in listed scalar idioms; every value that escapes (stored field / return value) from a function that flattens leading axes with reshape(-1, ...) '
